@@ -57,3 +57,32 @@ def structural(find_def):
     out.append(("annotate_ancestry/_idx-is-position-minus-self-offset", ok,
                 "annotate_ancestry numbers positional parameters with enumerate(args, -1 if first is self/cls else 0) and stores the number in _idx"))
     return out
+
+
+# --------------------------------------------------------------------------------------------------------------
+# The replacement loop of visit_FunctionDef ("updates exactly the selected property"): over `args` and `kwonlyargs`, the
+# parameter whose _location equals the searched location is replaced -- and NOTHING else: for an arbitrary position p, a slot
+# whose location is not the searched one holds the very same node afterwards, and neither list changes its length.
+# (p is a specification variable: the obligations are discharged for every p.)
+_NOT_SEL = "not (at(old(node.args.%s), p)._location == self.search)"
+_FRAME = [
+    "n_count(node.args.args) == n_count(old(node.args.args))",
+    "n_count(node.args.kwonlyargs) == n_count(old(node.args.kwonlyargs))",
+    "implies(p < n_count(old(node.args.args)) and %s, at(node.args.args, p) == at(old(node.args.args), p))" % (_NOT_SEL % "args"),
+    "implies(p < n_count(old(node.args.kwonlyargs)) and %s, at(node.args.kwonlyargs, p) == at(old(node.args.kwonlyargs), p))" % (_NOT_SEL % "kwonlyargs"),
+]
+
+CONTRACTS.append(
+    Contract(
+        M + ":RewriteAtQuery.visit_FunctionDef#only-the-selected-slot",
+        src=M + ":RewriteAtQuery.visit_FunctionDef",
+        block=lambda txt: txt.startswith("for arg_attr in"),
+        params={"node": "opaque", "self": "opaque", "p": "int"},
+        ghost_params=("p",),
+        paths={"node.args.args": "list:seq:opaque", "node.args.kwonlyargs": "list:seq:opaque", "self.search": "opaque", "self.replacement_node": "opaque", "self.replaced": "bool"},
+        requires=["p >= 0"],
+        ensures=_FRAME,
+        loops={1: {"invariant": _FRAME}},
+        pure_results={"emit_arg": "opaque"},
+    )
+)
